@@ -1,7 +1,8 @@
 """
 Bounded stand-in (labelled bounded): infeasible or inconsistent inputs on stock cases are reported as failures end to end --
 a power flow cut off after one iteration, a time-domain run and an eigenvalue analysis requested after that failed power flow, a
-dynamic initialisation that cannot balance (governor limit below the dispatch), an out-of-step run stopped by the angle criterion.
+dynamic initialisation that cannot balance (governor limit below the dispatch), an out-of-step run stopped by the angle criterion, a
+case whose exciter refers to a generator that does not exist (setup fails; the command-line entry point must return a non-zero code).
 Checked: the routine's return value is False (where the code is meant to return it), System.exit_code is non-zero, and no result is
 presented as converged.
 """
@@ -62,4 +63,29 @@ def run():
     if spread > np.deg2rad(ss.TDS.config.ddelta_limit) and (ok is not False or ss.exit_code == 0):
         return n, {'scenario': 'bolted fault on bus 7 cleared after 0.8 s', 'observed': 'rotor angle spread %.1f deg, run() -> %r, exit_code %r, t_end %.3f' % (
             np.rad2deg(spread), ok, ss.exit_code, float(ss.dae.t))}
+    # 6: inconsistent dynamic data that setup() itself rejects (an exciter pointing at a generator that does not exist): the system is not
+    #    set up, the command-line entry point refuses to run routines and returns a non-zero code
+    import os
+    import shutil
+    import tempfile
+    from andes.main import run as main_run
+    n += 1
+    tmp = tempfile.mkdtemp(prefix='verif_fail_')
+    try:
+        with quiet(), contextlib.redirect_stderr(io.StringIO()):
+            ss = andes.load(case, default_config=True, no_output=True, setup=False)
+            ss.EXDC2.alter('syn', ss.EXDC2.idx.v[0], 99)
+            ok = ss.setup()
+            andes.io.xlsx.write(ss, os.path.join(tmp, 'dangling.xlsx'), overwrite=True)
+        if ok is not False or ss.is_setup or ss.exit_code == 0:
+            return n, {'scenario': 'EXDC2.syn = 99 (no such generator)', 'observed': 'setup() -> %r, is_setup %r, exit_code %r' % (ok, ss.is_setup, ss.exit_code)}
+        with quiet(), contextlib.redirect_stderr(io.StringIO()):
+            try:
+                code = main_run('dangling.xlsx', input_path=tmp, cli=True, verbose=50, default_config=True, no_output=True)
+            except SystemExit as e:      # noqa
+                code = e.code
+        if code == 0 or code is None or code is False:
+            return n, {'scenario': 'andes run on a case whose exciter points at generator 99 (does not exist)', 'observed': 'exit code %r' % (code,)}
+    finally:
+        shutil.rmtree(tmp, ignore_errors=True)
     return n, None
